@@ -36,6 +36,10 @@ def clone(v, memo=None):
         return {k: clone(x, memo) for k, x in v.items()}
     if isinstance(v, tuple):
         return tuple(clone(x, memo) for x in v)
+    if hasattr(v, "z_val") and hasattr(v, "__dict__"):
+        import copy
+
+        return copy.copy(v)
     return v
 
 
@@ -64,6 +68,8 @@ def eq_term(world, a, b):
         return z3.And(*[eq_term(world, x, y) for x, y in zip(a, b)]) if a else z3.BoolVal(True)
     if isinstance(a, Obj) or isinstance(b, Obj):
         return z3.BoolVal(a is b)
+    if hasattr(a, "z_val") and hasattr(b, "z_val"):
+        return a.z_val(world) == b.z_val(world)
     try:
         return z3.BoolVal(bool(a == b))
     except Exception:  # noqa: BLE001
@@ -78,6 +84,9 @@ def flag_term(v):
 
 def run_method(it: Interp, obj: Obj, name, args=(), kwargs=None):
     """Call obj.name(*args) or assign obj.name = args[0] for setters ('set:<attr>')."""
+    while "." in name.split(":")[0] or (name.count(".") and not name.startswith("set:")):
+        head, _, name = name.partition(".")
+        obj = obj.fields[head]
     if name.startswith("set:"):
         it.set_attr(obj, name[4:], args[0])
         return None
